@@ -5,12 +5,19 @@ Helper lemmas for the soundness theorems of the legacy verifier model
 (`Model/Verifier.lean: verifyLegacy`), used by `Props/C01Legacy … C12Legacy`.
 
 Contents:
-* generic facts on association lists (`lookup`, `keys`), `noDup`, `sameSet`, `mapM` in `Option`;
+* generic facts on association lists (`lookup`, `keys`), `noDup`, `sameSet`, a pigeonhole lemma,
+  `mapM` in `Option`;
+* `restrictionsOutcome_ok_true_iff`, `restrictionsOutcome_ne_panic`, `restrictionsOutcome_ne_ok_false`;
 * `verifyLegacy_ok_true_iff`: acceptance unfolded into the conjunction of the checks performed;
-* `restrictionsOutcome_ok_true_iff`, `restrictionsOutcome_ne_panic`;
 * `verify_some_true`: what `IdealCL.verify … = some true` yields;
-* `subCtxs_get`, `subCtxFor_some`: entry `i` of the contexts handed to the CL verifier;
-* `SubSound` (vocabulary of the property files) and `subSound_of_ok`;
+* `subCtxs_get`, `subCtxFor_some`, `revocationRegistry_some`: entry `i` of the contexts handed to
+  the CL verifier;
+* `SubSound` (vocabulary of the property files), `ok_subs`, `subSound_of_ok`, `ok_sub_exists`;
+* `attrLocals_mem`, `predLocals_mem`: which local intervals the verifier collects per credential;
+* one elimination lemma per structural check (`compareAttrs_iff`, `revealedValuesOk_single/_group`,
+  `unrevealedOk_elim`, `predicatesOk_elim`), for restrictions (`attrValueMap`,
+  `attrRestrictionOk_elim`, `gatherFilter_some`, `attrClause_elim`) and for
+  `check_unique_attr_referents` (`uniqueReferents_exactly_one`);
 * one small honest scenario `Honest.{ctx, req, pres}` (accepted), reused for non-vacuity.
 -/
 namespace AnonModel.Verifier
@@ -138,6 +145,30 @@ theorem subset_of_nodup_length {l₁ : List String} :
       · exact List.mem_cons_of_mem _ (hs ((List.mem_erase_of_ne hxa).2 hx))
     · have hna : a ∉ l₂.erase a := fun h => h₁.1 (hs h)
       exact (List.perm_cons_erase ha).nodup_iff.mpr (List.nodup_cons.mpr ⟨hna, hnd⟩)
+
+/-- `eraseDups` (the distinct requested names) has no duplicates -/
+theorem nodup_eraseDups (l : List String) : l.eraseDups.Nodup := by
+  suffices h : ∀ n (l : List String), l.length ≤ n → l.eraseDups.Nodup from h l.length l (Nat.le_refl _)
+  intro n
+  induction n with
+  | zero =>
+    intro l hl
+    have : l = [] := List.eq_nil_of_length_eq_zero (by omega)
+    subst this; simp
+  | succ n ih =>
+    intro l hl
+    cases l with
+    | nil => simp
+    | cons a as =>
+      rw [List.eraseDups_cons, List.nodup_cons]
+      constructor
+      · intro hm
+        have := List.mem_eraseDups.mp hm
+        simp at this
+      · apply ih
+        have := List.length_filter_le (fun b => !b == a) as
+        simp only [List.length_cons] at hl
+        omega
 
 /-! ### `mapM` in `Option` -/
 
@@ -515,6 +546,18 @@ def SubSound (ctx : Ctx) (p : Presentation) (i : Nat) (s : SymSub) : Prop :=
     (∀ kv ∈ s.revealed, s.cred.attrs.lookup kv.1 = some kv.2) ∧
     (∀ pr ∈ s.preds, IdealCL.predHolds s.cred.attrs pr = true)
 
+theorem SubSound.intact {ctx : Ctx} {p : Presentation} {i : Nat} {s : SymSub}
+    (h : SubSound ctx p i s) : s.intact = true := by
+  obtain ⟨_, _, _, _, _, _, h1, _⟩ := h; exact h1
+
+theorem SubSound.revealed_signed {ctx : Ctx} {p : Presentation} {i : Nat} {s : SymSub}
+    (h : SubSound ctx p i s) : ∀ kv ∈ s.revealed, s.cred.attrs.lookup kv.1 = some kv.2 := by
+  obtain ⟨_, _, _, _, _, _, _, _, _, h1, _⟩ := h; exact h1
+
+theorem SubSound.preds_hold {ctx : Ctx} {p : Presentation} {i : Nat} {s : SymSub}
+    (h : SubSound ctx p i s) : ∀ pr ∈ s.preds, predHolds s.cred.attrs pr = true := by
+  obtain ⟨_, _, _, _, _, _, _, _, _, _, h1⟩ := h; exact h1
+
 theorem primaryOk_iff (c : SubCtx) (s : SymSub) :
     primaryOk c s = true ↔ s.intact = true ∧ s.cred.key = c.key ∧
       (∀ a, a ∈ c.schemaAttrs ↔ a ∈ s.cred.attrs.map Prod.fst) ∧
@@ -573,35 +616,67 @@ theorem ok_sub_exists {ctx : Ctx} {r : Request} {p : Presentation}
   exact ⟨p.subs[i], List.getElem?_eq_getElem hi2,
     subSound_of_ok h i _ (List.getElem?_eq_getElem hi2)⟩
 
-/-! ### a small honest scenario (non-vacuity of the property files) -/
+/-! ### revocation: local intervals, status lists -/
 
-/-! one credential (schema `Name, Age, Id`), one revealed attribute with a restriction, one
-unrevealed attribute, one predicate; no revocation -/
-namespace Honest
-def ctx : Ctx :=
-  { schemas := [("S", { name := "s", version := "1", issuerId := "I", attrNames := ["Name", "Age", "Id"] })],
-    credDefs := [("C", { issuerId := "I", key := 1, revocable := false })],
-    revRegDefs := none, lists := none, override := none }
-def req : Request :=
-  { nonce := "N",
-    attrs := [("a1", { name := some "name", names := none,
-                       restrictions := some (.eq "cred_def_id" "C"), nonRevoked := none }),
-              ("a2", { name := some "id", names := none, restrictions := none, nonRevoked := none })],
-    preds := [("p1", { name := "age", ty := "GE", value := 18, restrictions := none,
-                       nonRevoked := none })],
-    nonRevoked := none }
-def sub : SymSub :=
-  { revealed := [("name", "7")], preds := [⟨"age", "GE", 18⟩],
-    cred := { key := 1, attrs := [("name", "7"), ("age", "30"), ("id", "9")], holder := 1, rev := none },
-    nrp := none, ms := (1, 1), intact := true, uid := 1 }
-def pres : Presentation :=
-  { revealed := [("a1", { idx := 0, raw := "7", encoded := "7" })], groups := [], selfAttested := [],
-    unrevealed := [("a2", 0)], predicates := [("p1", 0)],
-    identifiers := [{ schemaId := "S", credDefId := "C", revRegId := none, timestamp := none }],
-    subs := [sub], agg := { nonce := "N", bound := [(1, false)], intact := true } }
-end Honest
-/-- the honest scenario is accepted -/
-theorem Honest.accepted : verifyLegacy Honest.ctx Honest.req Honest.pres = .ok true := by decide
+theorem mapM_some_mem {α β : Type} (f : α → Option β) (l : List α) (r : List β)
+    (h : l.mapM f = some r) : ∀ b, b ∈ r ↔ ∃ a ∈ l, f a = some b := by
+  obtain ⟨hlen, hget⟩ := mapM_some_get f l r h
+  intro b
+  constructor
+  · intro hb
+    obtain ⟨i, hi, rfl⟩ := List.mem_iff_getElem.mp hb
+    have hi' : i < l.length := by omega
+    obtain ⟨b', hb', hf⟩ := hget i l[i] (List.getElem?_eq_getElem hi')
+    rw [List.getElem?_eq_getElem hi] at hb'
+    cases hb'
+    exact ⟨l[i], List.getElem_mem hi', hf⟩
+  · rintro ⟨a, ha, hf⟩
+    obtain ⟨i, hi, rfl⟩ := List.mem_iff_getElem.mp ha
+    obtain ⟨b', hb', hf'⟩ := hget i l[i] (List.getElem?_eq_getElem hi)
+    rw [hf] at hf'; cases hf'
+    exact List.mem_of_getElem? hb'
+
+/-- the local intervals `get_attributes_for_credential` collects for credential `i`: those of the
+requested attributes whose referent is a revealed single or a revealed group with that index -/
+theorem attrLocals_mem {r : Request} {p : Presentation} {i : Nat} {al : List (Option Ivl)}
+    (h : attrLocals r p i = some al) (x : Option Ivl) :
+    x ∈ al ↔ ∃ ref a, r.attrs.lookup ref = some a ∧ a.nonRevoked = x ∧
+      ((∃ info, (ref, info) ∈ p.revealed ∧ info.idx = i) ∨ (∃ g, (ref, g) ∈ p.groups ∧ g.idx = i)) := by
+  unfold attrLocals at h
+  rw [mapM_some_mem _ _ _ h x]
+  simp only [List.mem_append, List.mem_map, List.mem_filter, decide_eq_true_eq, Option.map_eq_some_iff]
+  constructor
+  · rintro ⟨ref, hm, a, ha, hx⟩
+    refine ⟨ref, a, ha, hx, ?_⟩
+    rcases hm with ⟨⟨ref', info⟩, ⟨hm, hi⟩, rfl⟩ | ⟨⟨ref', g⟩, ⟨hm, hi⟩, rfl⟩
+    · exact Or.inl ⟨info, hm, hi⟩
+    · exact Or.inr ⟨g, hm, hi⟩
+  · rintro ⟨ref, a, ha, hx, hm⟩
+    refine ⟨ref, ?_, a, ha, hx⟩
+    rcases hm with ⟨info, hm, hi⟩ | ⟨g, hm, hi⟩
+    · exact Or.inl ⟨(ref, info), ⟨hm, hi⟩, rfl⟩
+    · exact Or.inr ⟨(ref, g), ⟨hm, hi⟩, rfl⟩
+
+/-- the local intervals `get_predicates_for_credential` collects for credential `i` -/
+theorem predLocals_mem {r : Request} {p : Presentation} {i : Nat} {pl : List (Option Ivl)}
+    (h : predLocals r p i = some pl) (x : Option Ivl) :
+    x ∈ pl ↔ ∃ ref q, r.preds.lookup ref = some q ∧ q.nonRevoked = x ∧ (ref, i) ∈ p.predicates := by
+  unfold predLocals at h
+  rw [mapM_some_mem _ _ _ h x]
+  simp only [List.mem_map, List.mem_filter, decide_eq_true_eq, Option.map_eq_some_iff]
+  constructor
+  · rintro ⟨ref, ⟨⟨ref', j⟩, ⟨hm, hi⟩, rfl⟩, q, hq, hx⟩
+    simp only at hi; subst hi
+    exact ⟨ref', q, hq, hx, hm⟩
+  · rintro ⟨ref, q, hq, hx, hm⟩
+    exact ⟨ref, ⟨(ref, i), ⟨hm, rfl⟩, rfl⟩, q, hq, hx⟩
+
+theorem listsOk_acc {ctx : Ctx} (h : listsOk ctx = true) {ls : List StatusListInfo}
+    (hls : ctx.lists = some ls) {l : StatusListInfo} (hl : l ∈ ls) : l.acc.isSome = true := by
+  unfold listsOk at h
+  rw [hls] at h
+  simp only [List.all_eq_true, Bool.and_eq_true] at h
+  exact (h l hl).2
 
 /-! ### the structural checks, one elimination lemma each -/
 
@@ -658,7 +733,7 @@ theorem revealedValuesOk_group {r : Request} {p : Presentation}
     (h : revealedValuesOk r p = true) {ref : String} {g : GroupInfo}
     (hm : (ref, g) ∈ p.groups) :
     ∃ a names s, r.attrs.lookup ref = some a ∧ a.names = some names ∧ p.subs[g.idx]? = some s ∧
-      g.values.length = names.length ∧
+      g.values.length = names.eraseDups.length ∧
       ∀ n ∈ names, ∃ re, g.values.lookup n = some re ∧ revealedValueOk n s re.2 = true := by
   simp only [revealedValuesOk, Bool.and_eq_true, List.all_eq_true] at h
   have := h.2 _ hm
@@ -858,5 +933,35 @@ theorem attrClause_elim {ctx : Ctx} {p : Presentation} {ref : String} {a : AttrI
   · cases hq : a.restrictions with
     | none => exact Or.inr (Or.inl rfl)
     | some q => rw [hq] at h; exact Or.inr (Or.inr ⟨q, rfl, h⟩)
+
+/-! ### a small honest scenario (non-vacuity of the property files) -/
+
+/-! one credential (schema `Name, Age, Id`), one revealed attribute with a restriction, one
+unrevealed attribute, one predicate; no revocation -/
+namespace Honest
+def ctx : Ctx :=
+  { schemas := [("S", { name := "s", version := "1", issuerId := "I", attrNames := ["Name", "Age", "Id"] })],
+    credDefs := [("C", { issuerId := "I", key := 1, revocable := false })],
+    revRegDefs := none, lists := none, override := none }
+def req : Request :=
+  { nonce := "N",
+    attrs := [("a1", { name := some "name", names := none,
+                       restrictions := some (.eq "cred_def_id" "C"), nonRevoked := none }),
+              ("a2", { name := some "id", names := none, restrictions := none, nonRevoked := none })],
+    preds := [("p1", { name := "age", ty := "GE", value := 18, restrictions := none,
+                       nonRevoked := none })],
+    nonRevoked := none }
+def sub : SymSub :=
+  { revealed := [("name", "7")], preds := [⟨"age", "GE", 18⟩],
+    cred := { key := 1, attrs := [("name", "7"), ("age", "30"), ("id", "9")], holder := 1, rev := none },
+    nrp := none, ms := (1, 1), intact := true, uid := 1 }
+def pres : Presentation :=
+  { revealed := [("a1", { idx := 0, raw := "7", encoded := "7" })], groups := [], selfAttested := [],
+    unrevealed := [("a2", 0)], predicates := [("p1", 0)],
+    identifiers := [{ schemaId := "S", credDefId := "C", revRegId := none, timestamp := none }],
+    subs := [sub], agg := { nonce := "N", bound := [(1, false)], intact := true } }
+end Honest
+/-- the honest scenario is accepted -/
+theorem Honest.accepted : verifyLegacy Honest.ctx Honest.req Honest.pres = .ok true := by decide
 
 end AnonModel.Verifier
